@@ -18,6 +18,13 @@ where
     let bump = core::mem::ManuallyDrop::new(bump);
     set_budget(0);
     let w1 = Win::of(bump.stats().current_chunk().unwrap());
+    // "even when the memory was used before": the whole 16-byte content range holds 0xAA (concrete pointer and
+    // length; also makes the counterexample independent of what fresh heap memory contains natively)
+    {
+        let c = bump.stats().current_chunk().unwrap();
+        check!(c.capacity() == 16, "harness: first chunk of the stub allocator has 16 bytes of capacity");
+        unsafe { core::ptr::write_bytes(c.content_start().as_ptr(), 0xAA, 16) };
+    }
     // filler so that the position before B is not a multiple of B's alignment
     let la = any_layout(3, 0);
     let Ok(_a) = bump.allocate(la) else { return };
